@@ -88,6 +88,11 @@ func runNative(env *load.Env, pkg string, cases []nativeCase, watchdogMs int, ra
 		cmd := exec.Command(bin, "-test.run", "^TestVerifReplay$", "-test.timeout", "0")
 		cmd.Dir = filepath.Join(env.Repo, pkg)
 		cmd.Env = append(os.Environ(), "VERIF_REPLAY="+in, "VERIF_REPLAY_OUT="+out, fmt.Sprintf("VERIF_WATCHDOG_MS=%d", watchdogMs))
+		if race {
+			// the first data race ends the process: the case in progress is then reported
+			// as died with the race report in its text
+			cmd.Env = append(cmd.Env, "GORACE=halt_on_error=1")
+		}
 		done := make(chan error, 1)
 		var combined []byte
 		go func() {
@@ -115,6 +120,13 @@ func runNative(env *load.Env, pkg string, cases []nativeCase, watchdogMs int, ra
 				txt = txt[:2000]
 			}
 			outs = []nativeOutcome{{Panic: fmt.Sprintf("process died: %v: %s", runErr, txt)}}
+			if k := strings.Index(string(combined), "WARNING: DATA RACE"); k >= 0 {
+				rep := string(combined)[k:]
+				if len(rep) > 1500 {
+					rep = rep[:1500]
+				}
+				outs[0].Panic = "process died: " + rep
+			}
 			if strings.Contains(txt, "stack overflow") || strings.Contains(txt, "goroutine stack exceeds") {
 				outs[0].Panic = "fatal: stack overflow"
 			}
